@@ -4,5 +4,7 @@ EXTENDS UdpSwarm
 SymKeys == Permutations(Keys)
 
 MCScrapeLists == {<<h>> : h \in Hashes} \cup {<<h1, h2>> : h1 \in Hashes, h2 \in Hashes}
+TimeNumWants == {-1}
+TimeScrapeLists == {<<h>> : h \in Hashes}
 MCNumWants == {-1, 1, 2}
 =============================================================================
